@@ -522,11 +522,17 @@ func checkReuseCase(c reuseCase, rec *Rec) error {
 		var perm []int
 		var orbits disjoint.Set
 		var gens [][]int
+		passed := copyClasses()
 		if p := try(func() {
-			op.Reset(n, m, copyClasses())
+			op.Reset(n, m, passed)
 			perm, orbits, gens = graph.CanonicalIsomorphAllocated(n, m, nb, op, storage, new(graph.CanonicalOptions))
 		}); p != nil {
 			return fmt.Errorf("graph #%d (n=%d %v classes %v) through reused storage (cap %d,%d) panicked: %v", i, n, clipEdges(g), classes, c.CapN, c.CapM, p)
+		}
+		for k := range classes {
+			if !eqInts(passed[k], classes[k]) {
+				return fmt.Errorf("graph #%d: Reset/CanonicalIsomorphAllocated modified the vertex classes it was given: %v became %v", i, classes, passed)
+			}
 		}
 		// results alias the storage: copy them out
 		perm = append([]int{}, perm...)
